@@ -268,6 +268,11 @@ func (dc *ClientDnsConnection) VersionHandshake() (err error) {
 		}, time.Second*time.Duration(i))
 		if err == nil {
 			response := resp.(*commands.VersionResponse)
+			if response.Err != nil {
+				// The server answered, and refused: it is full, or speaks another protocol version. There is no
+				// session and no identifier (the field reads 0, which is somebody else's session).
+				return errors.Wrapf(response.Err, "server refused the session")
+			}
 			dc.userId = response.UserId
 
 			log.Debugf("Version ok, both using protocol v 0x%08x. You are user #%d", ProtocolVersion, dc.userId)
